@@ -117,7 +117,7 @@ def register(_reg, _mt, STD):  # noqa: ANN001
         "independent of history.",
         "normal-form comparison; CFG dominance in the member loops; provenance dataflow", "DESIGN.md section 13", STD)
 
-    _reg('C12', [unions.rule_c12_r1, unions.rule_c12_r2, unions.rule_c12_r3, unions.rule_c12_r5, escape.rule_c04_r2, _tagged_pairs, _tagged_escape, extra.rule_annotation_flush_args, unions.rule_c12_r6],
+    _reg('C12', [unions.rule_c12_r1, unions.rule_c12_r2, unions.rule_c12_r3, unions.rule_c12_r5, escape.rule_c04_r2, _tagged_pairs, _tagged_escape, extra.rule_annotation_flush_args, unions.rule_c12_r6, unions.rule_c12_r7],
          "Decides the structural clauses of C12: for each of the three layouts the writer's normal form (keys and values) equals what the two "
          "readers extract (tag and body), including the shape tests; exactly one variant is consulted, selected through the tag map, with no "
          "fallback loop; the tag-map store is dominated by the uniqueness test; Tagged refuses non-unions and passes the flattened members in "
